@@ -9,6 +9,6 @@ export GOFLAGS=-mod=mod GOPROXY=off
 cp "$DEMO" $WT/$DEST/ || exit 2
 cd $WT
 echo "== without patch (expect PASS)"; go test -count=1 -run "$RUN" $PKG 2>&1 | grep -E "^(ok|FAIL|--- FAIL|panic)" | head -5
-git apply /tmp/seed-$ID/patch.diff || { echo "PATCH DOES NOT APPLY"; exit 2; }
+git apply ${SEEDDIR:-/tmp/seed-$ID}/patch.diff || { echo "PATCH DOES NOT APPLY"; exit 2; }
 echo "== with patch (expect FAIL)"; go test -count=1 -run "$RUN" $PKG 2>&1 | grep -E "^(ok|FAIL|--- FAIL|panic)" | head -5
 rm -f $WT/$DEST/$(basename "$DEMO")
